@@ -11,7 +11,8 @@ EXPLANATION = ("Flush hand-shake. R1: every log_statement call carrying a contro
                "load of that same flag. R3: in the backend the flag is stored only after the sinks were flushed with a literal zero "
                "interval and after the flush event was popped; the pointer stored to is the one decoded from the record, and it is "
                "reset for event reuse. R4: a zero interval forces the flush on every path; flush_sink is invoked for every sink of "
-               "every valid logger (collector never ends early, loop has no early exit). R5: FileSink::flush_sink -> "
+               "every registered logger — also one that was removed and not yet erased (R4c; collector never ends early, loop has no early exit), "
+               "and _cleanup_invalidated_loggers flushes before it erases (R4h). R5: FileSink::flush_sink -> "
                "StreamSink::flush_sink -> flush -> fflush(_file); every successful write path marks the stream dirty."
                " R2e/R3c: the load that ends the caller's wait is an acquire load and the backend's store a release store.")
 NOT_DECIDED = ("The cross-thread clause (needs the C05 ordering theorem as behaviour), success of fflush itself (its result is "
@@ -348,21 +349,28 @@ def r4(ctx, facts, cfg):
     inner = [x for x in facts.fns if x.config == cfg and x.rec.get("parent") == l.name]
     eq_ok = bool(inner) and all(any(isnode(strip(x.g.node_ast(r).get("val"), casts=True)) and strip(x.g.node_ast(r).get("val"), casts=True).get("k") == "BinaryOperator" and
                                     strip(x.g.node_ast(r).get("val"), casts=True).get("op") == "==" for r in x.g.return_nodes()) for x in inner)
-    pol = bool(valid_br) and bool(absent) and not lg.exists_path([lg.entry_node], pbp, avoid_edges=[(b, t) for (b, t, c) in valid_br]) and \
-        not lg.exists_path([lg.entry_node], pbp, avoid_edges=absent) and eq_ok
-    ok = never_early and in_loop and bool(valid_br) and pol
+    # a logger that was removed stays registered until the backend erases it, and what the caller logged through it before the removal
+    # is still to be flushed: the collection is not restricted to valid loggers (the tree's sixteenth defect: it was)
+    any_logger = not valid_br or all(lg.exists_path([y for (y, l2) in lg.succ.get(tnode(lg, b), ()) if l2 == other(t)], pbp) for (b, t, c) in valid_br)
+    pol = any_logger and bool(absent) and not lg.exists_path([lg.entry_node], pbp, avoid_edges=absent) and eq_ok
+    ok = never_early and in_loop and pol
     ctx.ob("C06.R4c", "_flush_and_run_active_sinks:collects-all-sinks", ok,
-           "the active-sink cache receives every sink of every valid logger: the collector walks all sinks of a logger and returns "
-           "false (never ends for_each_logger early) — never early: %s, loop over logger->sinks: %s; a sink is added on the outcomes "
-           "'logger is valid' and 'not yet in the cache', membership decided by pointer equality: %s" % (never_early, in_loop, pol), fn=l)
-    # R4f: the cache is scratch for one call: it is emptied after the sinks were visited, on every path (it holds raw pointers; a sink
-    # destroyed after its last logger was removed must not be flushed through a pointer left over from an earlier call)
-    clr = npos(f, [c for c in f.calls(r"std::vector<quill::Sink \*.*>::clear$") if is_this_field(call_obj(c), "_active_sinks_cache")])
-    lp = npos(f, flush_calls)
-    ok = bool(clr) and not g.exists_path([g.entry_node], [g.exit_node], avoid_nodes=clr) and not g.exists_path(clr, lp)
-    ctx.ob("C06.R4f", "_flush_and_run_active_sinks:cache-emptied", ok,
-           "the active-sink cache is cleared after the loop on every path, so each call flushes exactly the sinks of the loggers that "
-           "are valid now", fn=f)
+           "the active-sink cache receives every sink of every registered logger — a removed one included, until it is erased: the "
+           "collector walks all sinks of a logger and returns false (never ends for_each_logger early) — never early: %s, loop over "
+           "logger->sinks: %s; a sink is added on the outcome 'not yet in the cache' whether or not the logger is still valid, membership "
+           "decided by pointer equality: %s" % (never_early, in_loop, pol), fn=l)
+    # R4h: ... and before the backend erases removed loggers it flushes, unconditionally, while they are still registered: their sinks may
+    # live on (another logger or the user holds them) and would never be flushed again
+    cl = facts.need(BW + "_cleanup_invalidated_loggers", cfg)[0]
+    cg_ = cl.g
+    er = cpos(cl, r"LoggerManager::cleanup_invalidated_loggers\b")
+    fl0 = npos(cl, [c for c in cl.calls(r"::_flush_and_run_active_sinks$") if zero_duration(c["args"][1])])
+    none_e = [(b, other(t)) for (b, t, c) in branches_on_call(cl, r"LoggerManager::has_invalidated_loggers$")]
+    ok_h = bool(er) and bool(fl0) and not cg_.exists_path([cg_.entry_node], er, avoid_nodes=fl0, avoid_edges=none_e)
+    ctx.ob("C06.R4h", "_cleanup_invalidated_loggers:flush-before-erase", ok_h,
+           "every path to the erasure of removed loggers passes an unconditional (zero interval) flush of the registered loggers' sinks, "
+           "unless no logger is marked as removed", fn=cl)
+    r4f_cache_emptied(ctx, facts, cfg)
     # for_each_logger itself: stops only when the callback returns true
     fe = facts.need("quill::detail::LoggerManager::for_each_logger", cfg)
     for x in fe:
@@ -400,6 +408,24 @@ def r4(ctx, facts, cfg):
         ctx.ob("C06.R4d", "LoggerManager::for_each_logger:visits-all", ok,
                "for_each_logger visits every registered logger unless the callback asks to stop", fn=x)
         break
+
+
+def r4f_cache_emptied(ctx, facts, cfg, rule="C06.R4f"):
+    f = facts.need(BW + "_flush_and_run_active_sinks", cfg)[0]
+    g = f.g
+    flush_calls = need_some(f.calls(r"::Sink::flush_sink$"), "flush_sink call")
+    # R4f: the cache is scratch for one call: it is emptied after the sinks were visited, on every path (it holds raw pointers; a sink
+    # destroyed after its last logger was removed must not be flushed through a pointer left over from an earlier call)
+    clr = npos(f, [c for c in f.calls(r"std::vector<quill::Sink \*.*>::clear$") if is_this_field(call_obj(c), "_active_sinks_cache")])
+    lp = npos(f, flush_calls)
+    # ... also on the paths that continue from a catch handler (the flow graph has no edge into a handler; its body is the start)
+    hpos = [p_ for t in f.walk() if t["k"] == "CXXTryStmt" for h in t.get("handlers") or [] for x in walk(h.get("body")) for p_ in g.positions(x)]
+    after_handler = not g.exists_path(hpos, [g.exit_node], avoid_nodes=clr) if hpos else True
+    ok = bool(clr) and not g.exists_path([g.entry_node], [g.exit_node], avoid_nodes=clr) and not g.exists_path(clr, lp) and after_handler
+    ctx.ob(rule, "_flush_and_run_active_sinks:cache-emptied", ok,
+           "the active-sink cache is cleared after the loop on every path, also the one that continues from a handler of a throwing "
+           "sink (%s), so each call flushes exactly the sinks of the loggers that are registered now and no pointer to a sink that is "
+           "destroyed later is kept" % ("ok" if after_handler else "a handler reaches the end without the clear"), fn=f)
 
 
 def r5(ctx, facts, cfg):
